@@ -44,6 +44,7 @@ void FunctorManager::reset(const FunctorManager& fm)
   if (&fm == this)
     return;
   _backed.reset();
+  _unit.clear();
   _declarations.clear();
   // don't copy the cache of context
   for (const Entry& e : fm._declarations)
@@ -81,15 +82,48 @@ FunctorManager::Entry& FunctorManager::createOrReplace(const std::string& name, 
     {
       /* back up current declaration */
       _backed.swap(e.functor);
+      _unit.push_back({ name, params.size(), _backed });
       return e;
     }
   }
   _declarations.emplace_back(Entry(FunctorPtr(new Functor())));
+  _unit.push_back({ name, params.size(), FunctorPtr() });
   return _declarations.back();
+}
+
+void FunctorManager::unitAbort(size_t mark)
+{
+  /* undo the changes of the rejected unit, the latest first */
+  while (_unit.size() > mark)
+  {
+    Change& c = _unit.back();
+    if (c.prev)
+    {
+      for (Entry& e : _declarations)
+      {
+        if (e.functor && e.functor->name == c.name && e.functor->params.size() == c.arity)
+        {
+          e.functor = c.prev;
+          e.clearCache();
+          break;
+        }
+      }
+    }
+    else if (!_declarations.empty())
+    {
+      /* a new declaration is the last one at this point */
+      _declarations.pop_back();
+    }
+    _unit.pop_back();
+  }
+  _backed.reset();
 }
 
 void FunctorManager::rollback()
 {
+  /* the failed declaration is no longer a change of the unit */
+  if (!_unit.empty())
+    _unit.pop_back();
   if (_declarations.empty())
     return;
   if (_backed)
